@@ -1,14 +1,23 @@
 (* C08  Writing a problem in LP format and reading it back yields the same problem.
-   Level reached: proof of the sub-codecs + exploration with a verified oracle.
-   PROVED (all inputs): numbers survive printing and re-reading exactly (read_print_num); the
-   default-bound elision of the writer is inverted by the reader's default rules
-   (bounds_roundtrip); a ranged row is equivalent to the two halves the writer emits
-   (range_split_equiv); the comparison used on every real round trip means what it says
-   (equiv_by_name_sound, equiv_same_optimum).
-   NOT PROVED (explored on the real writer/reader only): the token- and byte-level codec -
-   fix_names, term layout and line wrapping, section keywords, the "\ RANGE" comment - i.e. the
-   target theorem  lp_roundtrip : wf_lp P -> read_lp (write_lp P) = Some P' /\ equiv_by_name P P'. *)
-From QSX Require Import LP.User IO.Num IO.NumSound IO.Bounds IO.Equiv.
+   Level reached: proof at the level of lines of text (models of ILLwrite_lp and ILLread_lp, both tied to the
+   library on every run) + exploration of the real round trip with the verified oracle.
+   PROVED (all inputs, no size bound):
+     C08_lp_roundtrip          for every problem by name that satisfies the precondition of the property (wf_lp: every
+                               column used, a row with a non-zero, valid names that are not inf/infinity/free, ordered
+                               bounds, finite right hand sides and coefficients) the lines the writer model prints are
+                               accepted by the reader model, and what it delivers is equiv_by_name to the problem written
+                               (column order free, ranged row = its two halves, rows without entries dropped)
+     C08_expr_roundtrip        the expression layer for ARBITRARY wrapping points (any well-formed item list, not only
+                               the writer's 256-character rule) - so the wrapping rule itself is not a proof obligation
+     C08_numbers_roundtrip, C08_bounds_roundtrip, C08_range_split_equiv, C08_oracle_sound_partial, C08_same_optimum
+                               the sub-codecs and the meaning of the oracle, as before
+   TIED to the code on every run: write_lp = the bytes of mpq_QSwrite_prob (whole files, >= 300 per run);
+   read_lp_res = mpq_QSget_prob (C10: rendered, mutated and library-written files, accepted and rejected).
+     C08_fix_names_ok          the name repair (fix_names / ILLsymboltab_uname): repaired names are valid, not reserved, distinct
+   NOT PROVED: that the other parts of wf_lp survive the renaming (the two theorems are composed per instance: the check
+   evaluates wf_lpb on the repaired problem), the byte level below lines (line reader chunks of 131069 bytes, .gz/.bz2), and that the
+   fuel of the reader model always suffices (it does on every written file by the theorem). *)
+From QSX Require Import LP.User IO.Num IO.NumSound IO.Bounds IO.Equiv IO.LpWrite IO.LpRead IO.LpTok IO.LpExpr IO.LpRows IO.LpBounds IO.LpFinish IO.LpRoundtrip IO.LpNames IO.LpBytes.
 From Coq Require Import List QArith.
 Import ListNotations.
 Local Open Scope Q_scope.
@@ -42,3 +51,71 @@ Theorem C08_same_optimum :
   forall M P P' v val, equiv_by_name P P' = true -> empty_ok P -> (nis_optimum M P v val <-> nis_optimum M P' v val).
 Proof. exact equiv_same_optimum. Qed.
 Print Assumptions C08_same_optimum.
+
+(* ---- the LP format at the level of lines ------------------------------------------------------------------------------ *)
+
+Theorem C08_lp_roundtrip :
+  forall M, 0 < M -> forall P, wf_lp M P ->
+  exists P', read_lp true M (write_lp M P) = Some P' /\ equiv_by_name (to_nlp P) (to_nlp P') = true.
+Proof. exact lp_roundtrip. Qed.
+Print Assumptions C08_lp_roundtrip.
+
+(* names are passed to the oracle as numbers; the numbering loses nothing *)
+Theorem C08_names_injective : forall s t, N_of_name s = N_of_name t -> s = t.
+Proof. exact N_of_name_inj. Qed.
+Print Assumptions C08_names_injective.
+
+Theorem C08_expr_roundtrip :
+  forall M, 0 < M -> forall tc tl its st rw k cu re,
+  (forall st0, cur st0 = cutline tc -> rest st0 = tl -> eof st0 = false -> snd (sign st0) = None) ->
+  stop_name (cutline tc) ->
+  items_ok M MFirst its -> rem M tc tl its = (cu, re) ->
+  cur st = cutline cu -> rest st = re -> eof st = false -> (count_terms its <= k)%nat ->
+  exists st_t, cur st_t = cutline tc /\ rest st_t = tl /\ eof st_t = false /\
+    read_expr true (S k) st rw true = PrOk (fst (sign st_t), add_terms rw (terms_of its)).
+Proof. exact expr_roundtrip. Qed.
+Print Assumptions C08_expr_roundtrip.
+
+(* the value read for a written coefficient is the coefficient; the writer's own wrapping produces well-formed item lists *)
+Theorem C08_coefficient_value : forall c, rd_coef c == c.
+Proof. exact rd_coef_eq. Qed.
+Print Assumptions C08_coefficient_value.
+
+Theorem C08_writer_items_ok :
+  forall M startlen ts total b, terms_ok M ts -> (ts <> [] \/ b = false) ->
+  items_ok M (if b then MFirst else MNeed) (row_items M startlen ts total b b).
+Proof. exact row_items_ok. Qed.
+Print Assumptions C08_writer_items_ok.
+
+(* the bound statements as re-read decode to the bounds of the column *)
+Theorem C08_bounds_reread :
+  forall M lo up isint, 0 < M -> lo <= up ->
+  let r := decode_bounds M (map (rd_stmt M) (encode_bounds M lo up isint)) isint in fst r == lo /\ snd r == up.
+Proof. exact decode_rd. Qed.
+Print Assumptions C08_bounds_reread.
+
+(* the name repair of the writer (fix_names): whatever names a symbol table holds, the repaired names are valid LP names,
+   none is inf / infinity / free, and they are pairwise different - the name part of wf_lp *)
+Theorem C08_fix_names_ok :
+  forall pref, prefix_ok [pref] -> forall names, NoDup names ->
+  NoDup (fix_names pref names) /\ Forall (good) (fix_names pref names) /\
+  List.length (fix_names pref names) = List.length names.
+Proof. exact fix_names_ok. Qed.
+Print Assumptions C08_fix_names_ok.
+
+(* the precondition as an executable test (evaluated by checks/C08.py on every generated problem) *)
+Theorem C08_wf_test_sound : forall M P, wf_lpb M P = true -> wf_lp M P.
+Proof. exact wf_lpb_sound. Qed.
+Print Assumptions C08_wf_test_sound.
+
+(* the hypotheses of C08_lp_roundtrip are satisfiable (ranged row, keyword as column name, integer column, empty row) *)
+Example C08_wf_satisfiable : exists M P, 0 < M /\ wf_lp M P.
+Proof. eexists 1000, _. split; [reflexivity|]. exact (proj1 wf_lp_example). Qed.
+
+(* the same on the bytes of the file: the lines printed with "%s\n", split again the way fgets does with the reader's
+   line buffer, give the same result (the lines of the file have no newline of their own and fit the buffer) *)
+Theorem C08_lp_roundtrip_bytes :
+  forall M P, 0 < M -> wf_lp M P -> Forall line_ok (write_lp M P) ->
+  exists P', read_lp true M (split_lines (file_bytes (write_lp M P))) = Some P' /\ equiv_by_name (to_nlp P) (to_nlp P') = true.
+Proof. exact lp_roundtrip_bytes. Qed.
+Print Assumptions C08_lp_roundtrip_bytes.
